@@ -160,7 +160,48 @@ def judge(ctx, case, res, mout):
                 return
 
 
+def _expand_f(x):
+    # element x expands to x % 4 items, every second one None; multiples of 5 give a plain None
+    if x % 5 == 0:
+        return None
+    return iter([None if j % 2 else (x, j) for j in range(x % 4)])
+
+
+def _copied(how, skipNone, n):
+    import copy
+    import pickle
+    import dill
+    from generatorpipeline import pipeline
+    base = pipeline(0, skipNone=skipNone)(_expand_f)
+    P = {'copy': copy.copy, 'deepcopy': copy.deepcopy, 'pickle': lambda o: pickle.loads(pickle.dumps(o)),
+         'dill': lambda o: dill.loads(dill.dumps(o))}[how](base)
+    return list(P(iter(range(n)))), list(base(iter(range(n))))
+
+
+def copied_stage_cases(ctx):
+    """a copy of a stage (shallow, deep, through pickle or dill — the last is what a worker gets) splices and filters like the stage"""
+    rng = ctx.rng
+    for how in ('copy', 'deepcopy', 'pickle', 'dill'):
+        for skip in (True, False):
+            n = rng.choice([6, 9, 12])
+            case = dict(copied_stage=how, skipNone=skip, n=n)
+            ctx.case(('copied', how, skip, n), not skip, sample=case)
+            ctx.count('copied_stage')
+            st, r = pipelib.isolated(_copied, (how, skip, n), timeout=30)
+            if st != 'ok':
+                ctx.fail('copied-stage-fails', 'a %s of a stage: %s %s' % (how, st, str(r)[-300:]), case)
+                continue
+            exp = []
+            for x in range(n):
+                items = [None] if x % 5 == 0 else [None if j % 2 else (x, j) for j in range(x % 4)]
+                exp += [v for v in items if not (v is None and skip)]
+            if r[0] != exp or r[1] != exp:
+                ctx.fail('flatmap-output-wrong', 'a %s of a stage with skipNone=%s delivered %s (the original %s), expected %s' % (how, skip, r[0], r[1], exp), case,
+                         observed=r[0], expected=exp)
+
+
 def check(ctx):
+    copied_stage_cases(ctx)
     for c, r, m in c01.execute(gen_cases(ctx)):
         with ctx.guard(c):
             judge(ctx, c, r, m)
@@ -169,6 +210,9 @@ def check(ctx):
 
 
 def replay(ctx, data):
+    if 'copied_stage' in data['case']:
+        copied_stage_cases(ctx)
+        return
     if 'streams' in data['case']:
         from harness.props import multistream
         multistream.replay(ctx, data['case'])
